@@ -29,11 +29,13 @@ FlagSpace == [ np     : 1..4,                       \* pages
                beqh   : BOOLEAN,                    \* body line whose text equals the header text
                title  : {"none", "once", "twice"},  \* a top-band line found on page 1 only; "twice": drawn twice at the same
                                                     \* place (emboldening by overprinting) - still on no other page
+               drift  : {"none", "x", "y"},         \* the same top-band word on every page, but never twice at one place:
+                                                    \* same height and another x on each page / same x and another height
                short  : BOOLEAN,                    \* last page has little content (content bounds << page)
                cover  : BOOLEAN ]                   \* page 1 is a cover: no running header, footer line or page number
 
 \* keys: 1 header A, 2 header B, 3 "Page #", 4 "#", 5 footer line, 6 repeating body line, 7 title,
-\*       100+p*10+i unique body lines
+\*       8 drifting word, 100+p*10+i unique body lines
 F(b, s, k, n) == [band |-> b, slot |-> s, key |-> k, num |-> n]
 
 PageOf(fl, p) ==
@@ -43,6 +45,7 @@ PageOf(fl, p) ==
           [] fl.hdr = "all" -> <<F("Top", 1, 1, FALSE)>>
           [] fl.hdr = "oddeven" -> <<F("Top", 1, IF p % 2 = 1 THEN 1 ELSE 2, FALSE)>>
           [] OTHER -> <<>>)
+    \o (IF fl.drift = "x" THEN <<F("Top", 10 + p, 8, FALSE)>> ELSE IF fl.drift = "y" THEN <<F("Top", 20 + p, 8, FALSE)>> ELSE <<>>)
     \* on a short page the body lines sit right below the top band
     \o (IF fl.beqh THEN <<F("Body", IF fl.short /\ p = fl.np THEN 9 ELSE 3, 1, FALSE)>> ELSE <<>>)
     \o (IF fl.bnum THEN <<F("Body", IF fl.short /\ p = fl.np THEN 8 ELSE 4, 4, TRUE)>> ELSE <<>>)
